@@ -398,9 +398,9 @@ def user_cost(net, maps, costs, ac):
     return total, parts
 
 
-def energized_buses(net):
+def energized_buses(net, components=False):
     """own connectivity search on the tables: buses connected to an in-service slack (ext_grid or slack gen) through closed
-    switches and in-service branches (dclines do not energize, as in the power flow)"""
+    switches and in-service branches (dclines do not energize, as in the power flow); components=True: bus -> island label"""
     ok = {b: bool(net.bus.at[b, "in_service"]) for b in net.bus.index}
     adj = {b: set() for b in net.bus.index}
 
@@ -429,15 +429,18 @@ def energized_buses(net):
                 link(ends[0], a)
     start = [net.ext_grid.at[i, "bus"] for i in net.ext_grid.index if net.ext_grid.at[i, "in_service"]]
     start += [net.gen.at[i, "bus"] for i in net.gen.index if net.gen.at[i, "in_service"] and bool(net.gen.at[i, "slack"])]
-    seen = set()
-    stack = [b for b in start if ok.get(b)]
-    while stack:
-        a = stack.pop()
-        if a in seen:
+    comp = {}
+    for s0 in start:
+        if not ok.get(s0) or s0 in comp:
             continue
-        seen.add(a)
-        stack.extend(adj[a] - seen)
-    return seen
+        stack = [s0]
+        while stack:
+            a = stack.pop()
+            if a in comp:
+                continue
+            comp[a] = s0
+            stack.extend(adj[a] - set(comp))
+    return comp if components else set(comp)
 
 
 def dcline_dead_terminal(net):
